@@ -81,10 +81,10 @@ class StopSimulation(Exception):
     def callback(cls, event: Event) -> None:
         """Used as callback in :meth:`Environment.run()` to stop the simulation
         when the *until* event occurred."""
-        if event.ok:
-            raise cls(event.value)
-        else:
-            raise event._value
+        # Always stop via StopSimulation: step() lets the remaining waiters of
+        # the event run before propagating it, and run() re-raises the
+        # exception of a failed until-event.
+        raise cls(event._value)
 
 
 SimTime = Union[int, float]
@@ -281,6 +281,8 @@ class Environment:
             while True:
                 self.step()
         except StopSimulation as exc:
+            if until is not None and not until._ok:
+                raise exc.args[0]  # the until-event failed
             return exc.args[0]  # == until.value
         except EmptySchedule:
             if until is not None:
